@@ -5,15 +5,30 @@ from harness import common as C
 
 THEOREMS = 'Properties/C17.v'
 CLAIM = dict(
-    text='Index maps: Coq theorems for every d and every q>=1 (both compositions are the identity, lengths, '
-         'rejection of non-powers of two) about the model Model/GridInd.v; the model is tied to grid.py by exact, '
-         'exhaustive correspondence over every multi-index with q*d<=8 (12 thorough) plus a malformed stream.',
-    note='Trusted: Coq kernel, vm_compute for case evaluation, the hand-written model (validated by the '
-         'correspondence), numpy ravel/unravel semantics.',
-    technique='Coq proof (induction over digits) + exhaustive model/implementation correspondence')
+    text='Coq theorems (Properties/C17.v). Index maps (Model/GridInd.v), every d and q>=1: both compositions are the '
+         'identity, lengths, rejection of non-powers of two (C17_ind_*). Conversions (Model/Qtt.v), every commutative '
+         'ring, every d, q>=1 and rank profile: qtt_to_tt returns d cores of mode size 2^q whose ranks are the QTT-ranks at '
+         'the mode boundaries and whose entry at a multi-index equals the QTT entry at its little-endian binary expansion '
+         '(C17_qtt_to_tt_denote, C17_qtt_to_tt_shape); tt_to_qtt, when every truncated factorisation is exact (A = U V: '
+         'nothing is cut), returns d*q cores of mode size 2 with boundary ranks 1 whose entry at the binary expansion equals '
+         'the original entry (C17_tt_to_qtt_denote, C17_core_tt_to_qtt_spec), keeps the TT-ranks on the bonds between modes '
+         'and has every bond inside a mode equal to an inner size of a factorisation, hence <= the cap '
+         '(C17_tt_to_qtt_ranks); a non-power-of-two mode size is rejected with ValueError before any factorisation '
+         '(C17_core_tt_to_qtt_rejects). PARTIAL: with real truncation (e > 0 cutting something, or a binding cap) the '
+         '"within the requested accuracy" clause is not proved; it is checked numerically by the search (dense reference). '
+         'Mode size 1 (= 2^0) is outside the model (teneva returns a malformed core or raises depending on parity).',
+    note='Trusted: Coq kernel, vm_compute for case evaluation, the hand-written models (validated by the correspondence: '
+         'index maps exhaustively for q*d<=8 (12 thorough) plus a malformed stream; qtt_to_tt exactly on integer cores (Z '
+         'instance); tt_to_qtt at the PrimFloat instance with the recorded matrix_svd outputs replayed by (core, call) number, '
+         'cores compared to 1e-12), numpy ravel/unravel/reshape/tensordot/hstack semantics as re-expressed in the models. '
+         'matrix_svd is an oracle here (its own contract is property C02); IEEE rounding is outside the theorems.',
+    technique='Coq proof (induction over digits; loop invariant of the halving sweep over an abstract ring) + exhaustive / '
+              'exact / replayed model-implementation correspondence + dense reference search')
 TRUSTED = ['Coq 8.16.1 kernel + vm_compute (case evaluation only)',
-           'hand-written model Model/GridInd.v tied to grid.py by exhaustive exact correspondence',
-           'np.unravel_index / np.ravel_multi_index semantics (order=F) as modelled by bits_le / unbits_le']
+           'hand-written models Model/GridInd.v, Model/Qtt.v tied to grid.py / core.py / act_one.py by the correspondence',
+           'np.unravel_index / np.ravel_multi_index semantics (order=F) as modelled by bits_le / unbits_le',
+           'oracle contract fac_ok (A = U V, shapes) for teneva.matrix_svd in the exact-conversion theorems; its outputs are '
+           'recorded and replayed in the correspondence, and validated numerically (residual) on every recorded call']
 HEADER = ('From Coq Require Import List ZArith.\nFrom TV Require Import Num.Ops Model.GridInd.\n'
           'Import ListNotations.\n'
           'Definition showR (r : result (list (list nat))) : list (list nat) := '
@@ -30,6 +45,206 @@ def _impl(f, *a):
     if v and not isinstance(v[0], list):
         return [[0], v]
     return [[0]] + v
+
+
+HEADER_Q = ('From Coq Require Import List ZArith.\nFrom TV Require Import Num.Ops Lin.Tab TT.Chain Model.GridInd Model.Qtt.\n'
+            'Import ListNotations. Open Scope Z_scope.\nDefinition c := @mk_core Z.\n'
+            'Definition showQ (r : result (list (core Z))) : list (list (list (list Z))) := '
+            'match r with Ok Y => [[[0]]] :: map (fun G => [[Z.of_nat (cr1 G); Z.of_nat (cn G); Z.of_nat (cr2 G)]] :: dat G) Y '
+            '| Err e => [[[[err_code e]]]] end.\n')
+HEADER_QF = ('From Coq Require Import List ZArith Floats.\n'
+             'From TV Require Import Num.Ops Num.InstF Lin.Tab Lin.Mat TT.Chain Model.GridInd Model.Qtt.\n'
+             'Import ListNotations. Open Scope float_scope.\nDefinition c := @mk_core float.\n'
+             'Definition M (l : list (list float)) : mat float := mk_mat (length l) (length (hd [] l)) l.\n'
+             'Definition ME (r k : nat) : mat float := mk_mat r k (repeat (@nil float) r).\n'
+             'Definition dm : mat float * mat float := (mk_mat 0 0 [], mk_mat 0 0 []).\n'
+             'Definition showF (r : result (list (core float))) : list (list (list (list (Z * Z)))) := '
+             'match r with Ok Y => [[[(0%Z, 0%Z)]]] :: map (fun G => [[(Z.of_nat (cr1 G), 0%Z); (Z.of_nat (cn G), 0%Z); '
+             '(Z.of_nat (cr2 G), 0%Z)]] :: map (map (map F_show)) (dat G)) Y '
+             '| Err e => [[[[(err_code e, 0%Z)]]]] end.\n')
+
+
+def _coq_core(G, leaf):
+    G = np.asarray(G)
+    return f'(c {G.shape[0]} {G.shape[1]} {G.shape[2]} {C.nested(G.tolist(), leaf)})'
+
+
+def _coq_mat(A):
+    A = np.asarray(A, dtype=float)
+    if A.shape[1] == 0 or A.shape[0] == 0:
+        return f'(ME {A.shape[0]} {A.shape[1]})'
+    return f'(M {C.nested(A.tolist(), C.flit)})'
+
+
+def _rand_chain(rng, ns, rmax, lo=-3, hi=3):
+    d = len(ns)
+    r = [1] + [rng.randint(1, rmax) for _ in range(d - 1)] + [1]
+    return [np.array([[[float(rng.randint(lo, hi)) for _ in range(r[k + 1])] for _ in range(ns[k])] for _ in range(r[k])])
+            for k in range(d)]
+
+
+def corr_qtt_to_tt(R, tn, rng, th):
+    """qtt_to_tt / core_qtt_to_tt on integer cores: exact equality of every returned core (Z instance)"""
+    items = []
+    dist = dict(dq=[], malformed=0)
+    for t in range(120 if not th else 800):
+        d, q = rng.randint(1, 4), rng.randint(1, 4)
+        Y = _rand_chain(rng, [2] * (d * q), 3)
+        dist['dq'].append([d, q])
+        try:
+            Z = tn.qtt_to_tt(Y, q)
+            impl = [[[[0]]]] + [[[list(G.shape)]] + [[[int(x) for x in row] for row in sl] for sl in G.tolist()] for G in Z]
+        except Exception as e:
+            impl = [[[[C.errclass(e)]]]]
+        items.append(dict(coq=f'showQ (qtt_to_tt OZ [{"; ".join(_coq_core(G, lambda x: C.zlit(int(x))) for G in Y)}] {q}%nat)',
+                          impl=impl, input=['qtt_to_tt', d, q, [G.tolist() for G in Y]]))
+    bad = C.exact_corr(R, 'qtt_to_tt_cores', HEADER_Q, items, chunk=30, distribution=dict(
+        cases=len(items), d='1..4', q='1..4', ranks='1..3', entries='integers in [-3, 3]'))
+    return bad
+
+
+def corr_tt_to_qtt(R, tn, rng, th):
+    """tt_to_qtt at the PrimFloat instance with the recorded matrix_svd outputs replayed by (core, call) number"""
+    cases, meta = [], []
+    resid_bad = []
+    n_calls = 0
+    for t in range(70 if not th else 500):
+        d = rng.randint(1, 3)
+        q = rng.choice([1, 1, 2, 2, 3])
+        n = 2 ** q
+        rmax = rng.choice([1, 2, 3, 4])
+        r = [1] + [rng.randint(1, rmax) for _ in range(d - 1)] + [1]
+        Y = [np.array([[[rng.uniform(-1, 1) for _ in range(r[k + 1])] for _ in range(n)] for _ in range(r[k])]) for k in range(d)]
+        fam = rng.choice(['generic', 'generic', 'lowrank', 'int'])
+        if fam == 'int':
+            Y = [np.round(G * 3) for G in Y]
+        if fam == 'lowrank' and d >= 1:
+            k = rng.randrange(d)
+            Y[k][:, n // 2:, :] = Y[k][:, :n - n // 2, :]
+        e = rng.choice([0., 1e-14, 1e-12, 1e-8, 1e-2])
+        cap = rng.choice([1e12, 1e12, 100, 2, 1])
+        recs = []          # per core: list of (U, V)
+        orig = tn.matrix_svd
+        state = dict(core=-1)
+
+        def rec(A, e_, r_, _orig=orig):
+            U, V = _orig(A, e_, r_)
+            recs[-1].append((np.array(U, dtype=float), np.array(V, dtype=float), np.array(A, dtype=float)))
+            return U, V
+        orig_core = tn.core_tt_to_qtt
+
+        def core_wrap(G, e_=0., r_=1.E+12, _oc=orig_core):
+            recs.append([])
+            return _oc(G, e_, r_)
+        tn.matrix_svd = rec
+        tn.core_tt_to_qtt = core_wrap
+        try:
+            try:
+                Z = tn.tt_to_qtt(Y, e, cap)
+                impl = [list(G.shape) for G in Z], [np.asarray(G, dtype=float) for G in Z]
+            except Exception as ex:
+                impl = C.errclass(ex), None
+        finally:
+            tn.matrix_svd = orig
+            tn.core_tt_to_qtt = orig_core
+        for rc in recs:
+            for U, V, A in rc:
+                n_calls += 1
+                if e <= 1e-12 and cap >= 100:
+                    res = np.linalg.norm(U @ V - A)
+                    if res > 1e-6 * max(np.linalg.norm(A), 1e-300) + 1e-300:
+                        resid_bad.append(dict(what='matrix_svd residual', res=float(res), shape=list(A.shape)))
+        recterm = '[' + '; '.join('[' + '; '.join(f'({_coq_mat(U)}, {_coq_mat(V)})' for U, V, _ in rc) + ']' for rc in recs) + ']'
+        term = (f'showF (tt_to_qtt OF (fun k cc _ => nth cc (nth k {recterm} []) dm) '
+                f'[{"; ".join(_coq_core(G, C.flit) for G in Y)}])')
+        cases.append(term)
+        meta.append((dict(kind='tt_to_qtt', d=d, q=q, ranks=r, family=fam, e=e, cap=cap, Y=[G.tolist() for G in Y]), impl))
+    vals = C.run_cases('C17_tt_to_qtt', HEADER_QF, cases, chunk=10)
+    bad = []
+    for (inp, impl), v in zip(meta, vals):
+        R.add_distinct(('tt_to_qtt', repr(inp)[:3000]))
+        ok = True
+        if impl[1] is None:
+            ok = (v == [[[[ (impl[0], 0) ]]]]) or (len(v) == 1 and v[0][0][0][0][0] == impl[0])
+        elif len(v) != 1 + len(impl[0]) or v[0] != [[[(0, 0)]]]:
+            ok = False
+        else:
+            for sh, G, mv in zip(impl[0], impl[1], v[1:]):
+                msh = [x[0] for x in mv[0][0]]
+                if msh != sh:
+                    ok = False
+                    break
+                mg = np.array([[[C.float_of_show(tuple(x)) for x in row] for row in sl] for sl in mv[1:]], dtype=float).reshape(sh) \
+                    if all(sh) else np.zeros(sh)
+                sc = max(float(np.abs(G).max()) if G.size else 0., 1e-300)
+                if G.size and not np.allclose(mg, G, rtol=1e-12, atol=1e-12 * sc):
+                    ok = False
+                    break
+        if not ok:
+            bad.append(dict(stream='tt_to_qtt', input=inp, impl_shapes=impl[0],
+                            model_shapes=[[x[0] for x in mv[0][0]] for mv in v[1:]] if len(v) > 1 else v))
+    R.corr.append(dict(name='tt_to_qtt_float_replay', cases=len(cases), mismatches=len(bad) + len(resid_bad),
+                       comparison='shapes exact, cores to 1e-12 relative (PrimFloat instance, matrix_svd outputs replayed by '
+                                  '(core, call) number); residual of every recorded factorisation checked when nothing is cut',
+                       distribution=dict(d='1..3', q='1..3', ranks='1..4', e=[0., 1e-14, 1e-12, 1e-8, 1e-2], cap=[1e12, 100, 2, 1],
+                                         recorded_matrix_svd_calls=n_calls),
+                       first_mismatches=(bad + resid_bad)[:3]))
+    if meta:
+        R.samples.append(dict(stream='tt_to_qtt', input={k: v for k, v in meta[0][0].items() if k != 'Y'}, impl_shapes=meta[0][1][0]))
+    return bad + resid_bad
+
+
+def _dense(tn, Y):
+    return np.asarray(tn.full(Y), dtype=float)
+
+
+def _conv_oracle(tn, Y, q, e, cap):
+    """property-level oracle for the conversions, independent of the model (dense reference)"""
+    d, n = len(Y), 2 ** q
+    inp = dict(kind='conv', q=q, e=e, cap=cap, Y=[np.asarray(G).tolist() for G in Y])
+    Z = tn.tt_to_qtt(Y, e, cap)
+    if len(Z) != d * q or any(G.ndim != 3 or G.shape[1] != 2 for G in Z):
+        return dict(what='tt_to_qtt: result is not a QTT-tensor of d*q cores with mode size 2', input=inp,
+                    got=[list(G.shape) for G in Z])
+    rk = [Z[0].shape[0]] + [G.shape[2] for G in Z]
+    for a, b in zip(Z[:-1], Z[1:]):
+        if a.shape[2] != b.shape[0]:
+            return dict(what='tt_to_qtt: neighbouring ranks do not match', input=inp, got=rk)
+    tr = [Y[0].shape[0]] + [G.shape[2] for G in Y]
+    if [rk[k * q] for k in range(d + 1)] != tr:
+        return dict(what='tt_to_qtt: bonds between modes do not keep the TT-ranks', input=inp, got=rk, expected=tr)
+    capi = max(1, int(min(cap, 1e9)))
+    for k in range(d):
+        for t in range(1, q):
+            if rk[k * q + t] > capi:
+                return dict(what='tt_to_qtt: a bond inside a mode exceeds the rank cap', input=inp, got=rk, expected=capi)
+    F, FZ = _dense(tn, Y), _dense(tn, Z)
+    # entry of the QTT-tensor at the binary expansion = entry of the tensor (little-endian inside every mode)
+    FZr = FZ.reshape([2] * (d * q))
+    perm = []
+    for k in range(d):
+        perm += list(range(k * q, (k + 1) * q))[::-1]      # merge bits of one mode, lowest bit fastest
+    G = np.transpose(FZr, perm).reshape([n] * d)
+    nrm = max(np.linalg.norm(F), 1e-300)
+    tol = (10 * e * nrm * q * d + 1e-10 * nrm) if cap >= 100 else None
+    if tol is not None and np.linalg.norm(G - F) > tol:
+        return dict(what='tt_to_qtt: QTT entry at the binary expansion differs from the tensor entry beyond the accuracy',
+                    input=inp, got=float(np.linalg.norm(G - F)), expected=float(tol))
+    # index-map agreement on a few entries
+    import itertools as it
+    for idx in list(it.product(range(n), repeat=d))[:16]:
+        b = np.asarray(tn.ind_tt_to_qtt(list(idx), n)).tolist()
+        if tol is not None and abs(float(tn.get(Z, b)) - float(tn.get(Y, list(idx)))) > tol:
+            return dict(what='get(tt_to_qtt(Y), ind_tt_to_qtt(i)) != get(Y, i)', input=inp, got=[list(idx), b])
+    # and back
+    W = tn.qtt_to_tt(Z, q)
+    if [G_.shape[1] for G_ in W] != [n] * d:
+        return dict(what='qtt_to_tt: wrong mode sizes', input=inp, got=[list(G_.shape) for G_ in W])
+    FW = _dense(tn, W)
+    if np.linalg.norm(FW - G) > 1e-10 * max(np.linalg.norm(G), 1e-300):
+        return dict(what='qtt_to_tt(Z) does not denote the tensor whose entries are the QTT entries at the binary expansions',
+                    input=inp, got=float(np.linalg.norm(FW - G)))
+    return None
 
 
 def correspondence(R, ctx):
@@ -89,6 +304,8 @@ def correspondence(R, ctx):
         items.append(dict(coq=f'showR1 (ind_qtt_to_tt1 {q} {C.nested(b, str)})',
                           impl=_impl(tn.ind_qtt_to_tt, b, q), input=['qtt_to_tt1-digit', b, q]))
     bad = C.exact_corr(R, 'index_maps', HEADER, items, chunk=40, distribution=dist)
+    bad = bad + corr_qtt_to_tt(R, tn, rng, ctx['thorough'])
+    bad = bad + corr_tt_to_qtt(R, tn, rng, ctx['thorough'])
     return bad
 
 
@@ -111,7 +328,9 @@ def search(R, ctx, deep, hints):
     fails, n_eval = [], 0
     cand = []
     for h in hints:
-        inp = h['input']
+        inp = h.get('input')
+        if not isinstance(inp, list) or not inp:
+            continue
         if inp[0] == 'tt_to_qtt1':
             cand.append((inp[1], int(np.log2(inp[2]))))
         if inp[0] in ('tt_to_qtt',):
@@ -164,14 +383,58 @@ def search(R, ctx, deep, hints):
             pass
         except Exception as e:
             fails.append(dict(what='non-power-of-two mode size: wrong exception ' + repr(e)[:100], input=[[1], n]))
-    R.search.append(dict(name='index maps oracle (bit arithmetic)', evaluations=n_eval, failures=len(fails), deep=deep))
+    # conversions against a dense reference (degenerate families first: q = 1, d = 1, rank 1, rank-deficient, zero)
+    conv = []
+    for h in hints:
+        inp = h.get('input')
+        if isinstance(inp, dict) and inp.get('kind') == 'tt_to_qtt':
+            conv.append(([np.array(G, dtype=float) for G in inp['Y']], inp['q'], inp['e'], inp['cap']))
+    for d, q, rr in [(2, 1, 2), (3, 1, 3), (1, 1, 1), (1, 3, 1), (2, 2, 1), (2, 2, 4), (3, 2, 2), (2, 3, 3)]:
+        r = [1] + [rr] * (d - 1) + [1]
+        Y = [np.array([[[rng.uniform(-1, 1) for _ in range(r[k + 1])] for _ in range(2 ** q)] for _ in range(r[k])]) for k in range(d)]
+        conv.append((Y, q, 1e-12, 100))
+        conv.append((Y, q, 0., 1e12))
+        conv.append((Y, q, 1e-3, 2))
+        conv.append(([G * 0 for G in Y], q, 1e-12, 100))
+    for _ in range(150 if deep else 25):
+        d, q = rng.randint(1, 3), rng.randint(1, 3)
+        r = [1] + [rng.randint(1, 4) for _ in range(d - 1)] + [1]
+        Y = [np.array([[[rng.uniform(-1, 1) for _ in range(r[k + 1])] for _ in range(2 ** q)] for _ in range(r[k])]) for k in range(d)]
+        conv.append((Y, q, rng.choice([0., 1e-12, 1e-6, 1e-2]), rng.choice([1e12, 100, 3, 1])))
+    for Y, q, e, cap in conv:
+        if len(fails) >= 5:
+            break
+        n_eval += 1
+        try:
+            f = _conv_oracle(tn, Y, q, e, cap)
+        except Exception as ex:
+            f = dict(what='conversion raised on a valid tensor: ' + repr(ex)[:200],
+                     input=dict(kind='conv', q=q, e=e, cap=cap, Y=[np.asarray(G).tolist() for G in Y]))
+        if f:
+            fails.append(f)
+    for nbad in [3, 6, 12]:
+        n_eval += 1
+        try:
+            tn.tt_to_qtt([np.ones((1, nbad, 1))])
+            fails.append(dict(what='tt_to_qtt accepted a non-power-of-two mode size', input=dict(kind='badn', n=nbad)))
+        except ValueError:
+            pass
+        except Exception as ex:
+            fails.append(dict(what='tt_to_qtt, non-power-of-two mode size: wrong exception ' + repr(ex)[:100], input=dict(kind='badn', n=nbad)))
+    R.search.append(dict(name='index maps oracle (bit arithmetic) + conversions against a dense reference', evaluations=n_eval,
+                         failures=len(fails), deep=deep))
     return fails
 
 
 def replay(data):
     tn = C.import_teneva()
     p = data['payload']
-    print(data['what'], p.get('input'))
+    print(data['what'], str(p.get('input'))[:2000])
+    if isinstance(p.get('input'), dict) and p['input'].get('kind') == 'conv':
+        i = p['input']
+        f = _conv_oracle(tn, [np.array(G, dtype=float) for G in i['Y']], i['q'], i['e'], i['cap'])
+        print('replayed:', f and f['what'])
+        return 1 if f else 0
     if 'input' in p and isinstance(p['input'], list) and len(p['input']) == 2 and isinstance(p['input'][1], int):
         f = _oracle(tn, p['input'][0], p['input'][1])
         print('replayed:', f)
